@@ -101,7 +101,7 @@ def run_one(job):
         info['repo'] = repo
         mod = importlib.import_module('rules.' + prop.lower())
         ctx = core.Ctx(f, info, prop)
-        mod.run(ctx)
+        core.run_rules(mod, ctx)
         known, _ = core.load_known()
         bad = [i.key for r in ctx.rules for i in r.insts if not i.ok and (prop, i.key) not in known]
         res['violated'] = sorted(set(bad))[:12]
